@@ -16,7 +16,7 @@
 EXTENDS RefereeDefs, Json, IOUtils
 T == ndJsonDeserialize(IOEnv.TRACE)
 VARIABLES l, cnt
-Keys == {"games", "mate", "stalemate", "fifty", "threefold", "material", "moves", "viol"}
+Keys == {"games", "engines", "mate", "stalemate", "fifty", "threefold", "material", "moves", "viol"}
 TInit == l = 1 /\ cnt = [k \in Keys |-> 0]
 Bump(c, ks, nmoves) == [k \in DOMAIN c |-> IF k = "moves" THEN c[k] + nmoves ELSE IF k \in ks THEN c[k] + 1 ELSE c[k]]
 
@@ -49,8 +49,24 @@ Game(ev, ln) ==
       v5 == IF ev.exit = 0 /\ ~ev.numbers_ok THEN <<[line |-> ln, kind |-> "move_numbers", detail |-> [recorded |-> Len(ev.sans)]]>> ELSE <<>>
   IN [viol |-> v0 \o v1 \o v2 \o v3 \o v4 \o v5, bumps |-> {"games", kind}, n |-> w.played]
 
+\* what the referee sends to an engine (one line per engine process: the first words of the commands, and the full setoption lines)
+\* must be the GUI side of the UCI protocol: known commands only, `uci` first, options before the game, a position before every go
+GuiCommands == {"uci", "isready", "ucinewgame", "setoption", "position", "go", "stop", "quit", "ponderhit", "debug", "register"}
+Proto(ev, ln) ==
+  LET w == ev.words
+      n == Len(w)
+      unknown == {i \in 1..n : w[i] \notin GuiCommands}
+      goNoPos == {i \in 1..n : w[i] = "go" /\ ~\E j \in 1..(i - 1) : w[j] = "position" /\ \A k \in (j + 1)..(i - 1) : w[k] # "go"}
+      optsWanted == ev.options
+      optsSent == {i \in 1..n : w[i] = "setoption"}
+      v1 == IF n = 0 \/ w[1] # "uci" THEN <<[line |-> ln, kind |-> "protocol_uci_not_first", detail |-> [first |-> IF n = 0 THEN "" ELSE w[1]]]>> ELSE <<>>
+      v2 == IF unknown # {} THEN <<[line |-> ln, kind |-> "protocol_unknown_command_sent", detail |-> [command |-> w[CHOOSE i \in unknown : TRUE], options_wanted |-> optsWanted]]>> ELSE <<>>
+      v3 == IF goNoPos # {} THEN <<[line |-> ln, kind |-> "protocol_go_without_position", detail |-> [index |-> CHOOSE i \in goNoPos : TRUE]]>> ELSE <<>>
+      v4 == IF Cardinality(optsSent) # optsWanted THEN <<[line |-> ln, kind |-> "protocol_options_not_set", detail |-> [wanted |-> optsWanted, setoption_commands |-> Cardinality(optsSent)]]>> ELSE <<>>
+  IN [viol |-> v1 \o v2 \o v3 \o v4, bumps |-> {"engines"}, n |-> 0]
+
 TNext == /\ l <= Len(T)
-         /\ \E r \in {Game(T[l], l)} :
+         /\ \E r \in {IF "words" \in DOMAIN T[l] THEN Proto(T[l], l) ELSE Game(T[l], l)} :
               /\ \A i \in 1..Len(r.viol) : PrintT("VIOL " \o ToJson(r.viol[i]))
               /\ cnt' = Bump(cnt, r.bumps \cup (IF r.viol # <<>> THEN {"viol"} ELSE {}), r.n)
          /\ l' = l + 1
